@@ -40,36 +40,6 @@ def run(ctx):
     T.monitor_plans(ctx, worlds, results, "M-deadline", "(fun p => deadlines_c12b (fst p) (snd p))",
                     "a task was placed with a start and strategy whose completion is after its deadline although enforce_deadlines is on")
     # hopeless tasks: never placed; CPLEX: cancelled, and nothing else is cancelled
-    cases = []
-    where = []
-    for i, (w, r) in enumerate(zip(worlds, results)):
-        if r.get("placements") is None or r.get("error"):
-            continue
-        now = w["now"]
-        offered = {}
-        for g in w["graphs"]:
-            for t in g["tasks"]:
-                offered[t["name"] + "@" + g["name"]] = t
-        for p in r["placements"]:
-            t = offered[p["task"]]
-            hopeless = t["deadline"] < now + min(s[0] for s in t["strats"])
-            # (deadline, now, fastest, placed, cancelled, cplex)
-            cases.append("(%s, %s, %s, %s, %s, %s)" % (gz(t["deadline"]), gz(now), gz(min(s[0] for s in t["strats"])),
-                                                       core.gbool(bool(p["placed"])), core.gbool(p["type"] == "CANCEL_TASK"),
-                                                       core.gbool(w["cfg"]["flavour"] == "cplex")))
-            where.append((i, p["task"]))
-    if cases:
-        try:
-            bad = ctx.monitor_stream("M-hopeless", T.HEADER, "Z * Z * Z * bool * bool * bool",
-                                     "(fun q => match q with (d, n, f, placed, cancelled, cplex) => hopeless_answer_okb d n f placed cancelled cplex end)",
-                                     cases)
-            for b in bad[:3]:
-                i, name = where[b]
-                ctx.violation("hopeless%d" % i, {"stream": "M-hopeless", "world": worlds[i], "task": name,
-                                                 "placements": results[i]["placements"],
-                                                 "what": "a hopeless task (deadline < now + fastest runtime) was placed / not cancelled by the CPLEX "
-                                                         "admission control, or a task that is not hopeless was cancelled"})
-        except core.ModelEvalError as e:
-            ctx.broken.append({"kind": "monitor", "name": "M-hopeless", "detail": str(e)[-800:]})
+    T.monitor_hopeless(ctx, worlds, results)
     if ctx.broken:
         T.py_monitor_fallback(ctx, worlds, results)
